@@ -20,14 +20,48 @@ inductive ObjOp
   | decode (L : Level) (s : Bytes)      -- mutates the receiver
   | query (L : Level)                   -- every observer of the object at the level
   | report (L : Level) (lang : Nat)     -- report construction (v3)
-  | export (L : Level)                  -- report construction + export with a fixed template
+  | export (L : Level) (k : Nat)        -- report construction + export with the k-th of a few fixed templates
 
 def amp (s : String) : String := s.replace " " "&"
 
-/-- the fixed export template `{{.Vector}}|{{.SeverityValue}}|{{.BaseScore}}` evaluated by hand -/
-def exportFixed (L : Level) (o : V3.Obj3) : Bytes :=
-  (V3.encode L o).1 ++ [124] ++ (Names.call "SeverityValueOf" (V3.severity L o) 0).getD [] ++ [124]
-    ++ Report.fmtScore (V3.score .base o)
+/-- a template made of literal text and `{{.Field}}` actions only -/
+inductive Seg
+  | lit (b : Bytes)
+  | fld (name : String)
+
+/-- the templates of the history operations `X<i>,<k>` (the Go harness holds the same texts);
+    `none`: a template that does not parse or cannot be executed -/
+def templates : List (Option (List Seg)) := [
+  some [.fld "Vector", .lit b!"|", .fld "SeverityValue", .lit b!"|", .fld "BaseScore"],
+  some [.lit b!"B ", .fld "BaseScore", .lit b!" S ", .fld "SeverityName", .lit b!"=", .fld "SeverityValue"],
+  some [.fld "Version", .lit b!":", .fld "AVName", .lit b!"=", .fld "AVValue"],
+  some [.fld "BaseMetrics", .lit b!"/", .fld "Vector", .lit b!"/", .fld "Version"],
+  none,
+  none]
+
+def depth (path : String) : Nat := (path.splitOn ".").length
+
+/-- Go field promotion: `.Name` on a report is the shallowest field of that name -/
+def lookupField (fs : List (String × Bytes)) (name : String) : Option Bytes :=
+  let cands := fs.filter fun p => (p.1.splitOn ".").getLast? == some name
+  (cands.foldl (fun (best : Option (String × Bytes)) p =>
+    match best with
+    | none => some p
+    | some b => if depth p.1 < depth b.1 then some p else some b) none).map (·.2)
+
+def render (fs : List (String × Bytes)) : List Seg → Option Bytes
+  | [] => some []
+  | .lit b :: rest => (render fs rest).map (b ++ ·)
+  | .fld n :: rest => do let v ← lookupField fs n; let r ← render fs rest; pure (v ++ r)
+
+/-- export of the level-`L` report (English) with template `k` -/
+def exportK (L : Level) (o : V3.Obj3) (k : Nat) : String :=
+  match templates[k]? with
+  | some (some segs) =>
+    match render (Report.mkReport L o 0) segs with
+    | some out => s!"out:{toHex out}|-"
+    | none => "noout|" ++ Drv.errTag (some Err.invalidTemplate)
+  | _ => "noout|" ++ Drv.errTag (some Err.invalidTemplate)
 
 def insertSorted (x : String) : List String → List String
   | [] => [x]
@@ -47,8 +81,8 @@ def act : ObjOp → AnyObj → AnyObj × String
     let fields := (Report.mkReport L o lang).map fun p => s!"{p.1}={toHex p.2}"
     (.v3 o, "&".intercalate (fields.foldl (fun acc x => insertSorted x acc) []))
   | .report _ _, .v2 o => (.v2 o, "noreport")
-  | .export L, .v3 o => (.v3 o, s!"out:{toHex (exportFixed L o)}|-")
-  | .export _, .v2 o => (.v2 o, "noreport")
+  | .export L k, .v3 o => (.v3 o, exportK L o k)
+  | .export _ _, .v2 o => (.v2 o, "noreport")
 
 /-- which operations may change the object -/
 def ObjOp.writes : ObjOp → Bool
@@ -109,7 +143,11 @@ def hstep (p : Pool) (op : String) : Pool × String :=
     match rest.splitOn "," with
     | [i, tag] => onObj i (fun L => .report L (Names.langOf tag))
     | _ => (p, "bad")
-  else if c == 'X' then onObj rest (fun L => .export L)
+  else if c == 'X' then
+    match rest.splitOn "," with
+    | [i] => onObj i (fun L => .export L 0)
+    | [i, k] => onObj i (fun L => .export L (k.toNat?.getD 0))
+    | _ => (p, "bad")
   else (p, "bad")
 
 def runHistory (h : String) : String :=
